@@ -672,7 +672,7 @@ class FieldsJson(FieldValueBase):
     def _parse(cls, parsable):
         try:
             raw_values = json.loads(parsable.decode('ascii'), object_pairs_hook=collections.OrderedDict)
-        except ValueError as e:  # json.decoder.JSONDecodeError is derived from ValueError
+        except (ValueError, RecursionError) as e:  # json.decoder.JSONDecodeError is derived from ValueError
             six.raise_from(InvalidValue(six.ensure_text(bytes(parsable), 'ascii', 'replace'), cls, 'value'), e)
 
         attr_fields_dict = attr.fields_dict(cls)
@@ -683,7 +683,7 @@ class FieldsJson(FieldValueBase):
                 for attribute_name, validator_class in cls._get_attr_to_validator_type_dict(attr_fields_dict).items()
                 if validator_class.get_canonical_name() in raw_values
             }), len(parsable)
-        except (TypeError, AttributeError, ValueError) as e:
+        except (TypeError, AttributeError, ValueError, OverflowError) as e:
             six.raise_from(InvalidValue(six.ensure_text(bytes(parsable), 'ascii', 'replace'), cls, 'value'), e)
 
     def compose(self):
